@@ -122,7 +122,7 @@ pub fn run(ctx: &mut Ctx) {
         }
         let s = inputs::small_string(i, small_len);
         for (m, l) in [(63u8, "default"), (62, "default"), (63, "Square14"), (18, "all")] {
-            eval(ctx, &EncCase { input: s.clone(), list: l.into(), mask: m, macros: false, fnc1: false, eci: None }, "small_scope_exhaustive");
+            eval(ctx, &EncCase { input: s.clone(), list: l.into(), mask: m, macros: false, fnc1: false, eci: None, order: 0 }, "small_scope_exhaustive");
         }
     }
     let n = ctx.budget(250_000, 25_000_000);
